@@ -198,6 +198,16 @@ pub fn video_hash(e: &Emu) -> u64 {
     h.get()
 }
 
+/// Moves the in-frame clock to `t` by forward jumps only (devices keep cursors into the frame): when
+/// `t` lies behind the current clock the rest of the frame is skipped first.
+pub fn goto_frame_t(e: &mut Emu, t: usize, frame: usize) {
+    let c = e.verif_frame_clocks();
+    if t < c {
+        e.verif_bus().wait_internal(frame - c);
+    }
+    e.verif_set_frame_clocks(t);
+}
+
 /// Physical RAM page (machine numbering) that the logical Spectrum bank maps to.
 /// 48K: bank 5 -> page 0, bank 2 -> page 1, bank 0 -> page 2.
 pub fn phys_page(m128: bool, bank: u8) -> Option<u8> {
